@@ -11,6 +11,7 @@ REPLAY_SRC = r'''
 // Native replay for C17: the REAL templates at T = double on every multigraph with <= 3 nodes and <= 3 edges
 // (any end points, weights from {1,2,5} or unweighted), against an independent Bellman-Ford.
 #include "libcola/shortest_paths.h"
+#include "libcola/cola.h"
 #include <cstdio>
 #include <cfloat>
 #include <vector>
@@ -39,6 +40,24 @@ static void check(unsigned n, const std::vector<Edge> &es, const std::valarray<d
         bad++;
       }
   }
+  // the ideal-distance matrix a force-directed layout exposes: idealLength x path length, sentinel across components, zero diagonal
+  if (n >= 2 && weighted) {
+    std::vector<vpsc::Rectangle*> rs;
+    for (unsigned i = 0; i < n; ++i) rs.push_back(new vpsc::Rectangle(30.0 * i, 30.0 * i + 10, 7.0 * i, 7.0 * i + 10));
+    cola::EdgeLengths len(es.size()); for (size_t e = 0; e < es.size(); ++e) len[e] = w[e];
+    cola::ConstrainedFDLayout alg(rs, es, 20.0, len);
+    std::vector<double> D = alg.readLinearD();
+    for (unsigned i = 0; i < n; ++i) for (unsigned j = 0; j < n; ++j) {
+      double want = i == j ? 0.0 : (bf[i][j] == DBL_MAX ? DBL_MAX : 20.0 * bf[i][j]);
+      if (D[i * n + j] != want) {
+        if (bad < 6) { printf("ConstrainedFDLayout ideal distances: n=%u edges:", n);
+          for (size_t e = 0; e < es.size(); ++e) printf(" (%u,%u,len=%g)", es[e].first, es[e].second, w[e]);
+          printf("  D[%u][%u] = %g, expected 20 x %g\n", i, j, D[i * n + j], bf[i][j]); }
+        bad++;
+      }
+    }
+    alg.freeAssociatedObjects();
+  }
 }
 int main() {
   const double W[3] = {1, 2, 5};
@@ -58,7 +77,8 @@ int main() {
 
 
 def replay_c17(job, obl, inputs, workdir):
-    rc, out = native_run(REPLAY_SRC, workdir, "replay_c17", extra=["-I", COLA], timeout=300)
+    libs = [build_lib(l, workdir) for l in ("libcola", "libvpsc")]
+    rc, out = native_run(REPLAY_SRC, workdir, "replay_c17", extra=["-I", COLA], libs=libs, timeout=600)
     if rc is None:
         return False, out
     return rc == 1, out
@@ -114,6 +134,22 @@ def jobs(tier):
                   enforce="w_cpl_pair_body", defines=["JOB_cpl_pair", "CPL_INT", "CPL_BOUND=%d" % (1024 if tier == "quick" else 1048576)], slices=[cpl, b2],
                   domain="scaled-integer mode: path length and idealLength integers in [0,%s] (or the sentinel), overflow-checked" % ("2^10" if tier == "quick" else "2^20"),
                   expect=[r'postcondition', r'assigns'], flags=["--sat-solver", "cadical"], backend="sat:cadical", timeout=600))
+    # ---------------- computePathLengths: the tail after the distance post-processing marks adjacent pairs in G and must leave D alone
+    tl = fragment_tail(cpl, r'if \(minD == DBL_MAX\) minD = 1;', "computePathLengths [tail from `if (minD == DBL_MAX) minD = 1;`]")
+    tl_cxx = ("#include <verif_base.h>\n#include <valarray>\n#include <vector>\n#include <utility>\n#include <cfloat>\nusing std::vector;\n"
+              'extern "C" void w_topo_computePathLengths(void *addon, void *G);\n'
+              "namespace cola {\ntypedef std::pair<unsigned, unsigned> Edge;\n"
+              "// stand-in for the (virtual) TopologyAddonInterface: the call forwards to a contract\n"
+              "class TopologyAddonInterface { public: void computePathLengths(unsigned short** G) { w_topo_computePathLengths((void *)this, (void *)G); } };\n"
+              "class ConstrainedFDLayout { public: unsigned n; double** D; unsigned short** G; double minD; double m_idealEdgeLength; TopologyAddonInterface *topologyAddon;\n"
+              "  void verif_tail(const vector<Edge>& es, std::valarray<double> eLengths); };\n"
+              "void ConstrainedFDLayout::verif_tail(const vector<Edge>& es, std::valarray<double> eLengths)\n{\n" + tl.text + "\n}\n}\n"
+              'extern "C" void w_cpl_tail(void *l, void *es, void *el) { ((cola::ConstrainedFDLayout *)l)->verif_tail(*(const vector<cola::Edge> *)es, *(std::valarray<double> *)el); }\n')
+    js.append(Job("computePathLengths_tail_marks_edges", "B", spec, "h_cpl_tail", cxx=tl_cxx, enforce="w_cpl_tail", replace=["w_topo_computePathLengths"], defines=["JOB_cpl_tail"],
+                  slices=[cpl, tl], unwind=2, flags=["--sat-solver", "cadical"], backend="sat:cadical", replay=replay_c17,
+                  bound="edge list with exactly one edge (the loop is unwound twice with an unwinding assertion), up to 3 nodes; all doubles",
+                  domain="every layout state with up to 3 nodes, one arbitrary edge (self-loop included), with or without explicit edge lengths",
+                  expect=[r'postcondition', r'assigns', r'unwind']))
     # ---------------- dijkstra's relaxation step: loop-body fragment, unbounded (T -> VT = long long inside the sliced text)
     n1 = slice_block(SP, r'^struct Node \{', "shortest_paths::Node<T>")
     n2 = slice_block(SP, r'^struct CompareNodes \{', "shortest_paths::CompareNodes<T>")
@@ -168,7 +204,8 @@ ASSUMPTIONS = [
     "2 nodes and 1 edge (pointer-linked heap, dynamic allocation, recursion); a defect confined to dijkstra is therefore NOT detected by this check",
     "ConstrainedFDLayout::computePathLengths: only the two loop BODIES are under contract (unbounded, for one arbitrary index / pair): non-positive lengths become 1; off the "
     "diagonal a reachable pair is scaled by idealLength and marked 2, an unreachable pair keeps the sentinel and is marked 0; the loops themselves (writes through every row "
-    "pointer) and the call of johnsons are not",
+    "pointer) and the call of johnsons are not; the tail after the post-processing (bounded: one edge) marks the edge's end points adjacent in G and has D outside its frame "
+    "(the topology add-on's hook is assumed not to touch D)",
     "NOT decided (residue): everything beyond the bounds; agreement of the three algorithms with each other",
 ]
 EXPLANATION = ("Bounded stand-in only (DESIGN 5/C17): for every multigraph with the stated numbers of nodes and edges (any end points, so self-loops and parallel edges are included) "
